@@ -15,6 +15,7 @@
 #define NSIM_CONFIG "unknown"
 #endif
 
+extern "C" void __gcov_dump (void) __attribute__ ((weak));
 static bool all_results = false;
 static double wall () {
 	struct timespec ts;
@@ -187,6 +188,7 @@ static int batch (const struct nsim_family *fam, uint64_t base, int64_t nruns, i
 		if (p == 0) {
 			int ec = worker (fam, base, first[w], nruns, workers, deadline, outdir, w);
 			fflush (NULL);
+			if (__gcov_dump) __gcov_dump ();     /* coverage builds only (bin/build.py --cov) */
 			_exit (ec);
 		}
 		pids[w] = p;
